@@ -58,6 +58,15 @@ def impl_case(case):
         return [line_new, 'err UnicodeError', 'skip'], fail
     except Exception as e:
         return [line_new, 'err ' + exc_name(e), 'skip'], fail or f'bytes() of accepted {m!r} raised {type(e).__name__}: {e}'
+    if fail is None:
+        try:
+            tmp = m.bytes()
+            if isinstance(tmp, list):
+                tmp[:] = [0]                     # what bytes() returned belongs to the caller
+            if list(m.bytes()) != list(bs) or list(mido.MetaMessage(t, **kw).bytes()) != list(bs):
+                fail = f'after the caller changed the list returned by bytes(), {m!r} (or an equal message) encodes differently'
+        except Exception as e:
+            fail = f'second bytes() raised {type(e).__name__}: {e}'
     try:
         line_bytes = 'ok ' + ' '.join(str(int(b)) for b in bs)
     except Exception:
